@@ -668,13 +668,123 @@ def h_reduce_affine(eng):
     eng.prove("affine.evaluated_at_the_parameters_and_constants_its_own_equations_depend_on", z3.And(ok_params) if ok_params else True)
 
 
+class SXT(Ext):
+    """a scalar casadi.SX node: a symbol (OP_PARAMETER), a constant (OP_CONST) or an operation over nodes.  str() is CasADi's printed
+    form, which shows constants with SIX significant digits (1000001 and 1000002 both print as 1e+06)"""
+    type_names = ("SX",)
+
+    def __init__(self, kind, deps=(), name=None, value=None):
+        self.kind, self.deps, self.nm, self.value = kind, tuple(deps), name, value
+
+    def code(self):
+        return M.OPS["OP_PARAMETER" if self.kind == "sym" else "OP_CONST" if self.kind == "const" else self.kind]
+
+    def sym_getattr(self, eng, name):
+        table = {"is_scalar": lambda eng, *a: True, "op": lambda eng: self.code(), "n_dep": lambda eng: len(self.deps),
+                 "dep": lambda eng, i=0: self.deps[i], "size1": lambda eng: 1, "size2": lambda eng: 1, "is_symbolic": lambda eng: self.kind == "sym",
+                 "is_constant": lambda eng: self.kind == "const", "name": lambda eng: self.nm}
+        if name in table:
+            return stub(table[name])
+        if name == "shape":
+            return (1, 1)
+        raise Unsupported("SX.%s" % name)
+
+    def sym_str(self, eng):
+        if self.kind == "sym":
+            return self.nm
+        if self.kind == "const":
+            return "%g" % self.value
+        inf = {"OP_ADD": "+", "OP_SUB": "-", "OP_MUL": "*", "OP_DIV": "/"}.get(self.kind)
+        parts = [d.sym_str(eng) for d in self.deps]
+        return "(%s%s%s)" % (parts[0], inf, parts[1]) if inf and len(parts) == 2 else "%s(%s)" % (self.kind[3:].lower(), ",".join(parts))
+
+    def sym_eq(self, eng, other):
+        return self is other
+
+    def sym_isinstance(self, eng, cls):
+        return cls.name == "SX"
+
+
+EXPAND_SYSTEMS = [
+    # (label, equations over x, y, z): numbers are written as they stand in a model
+    ("constants that differ beyond the sixth digit", [("OP_SUB", ("OP_MUL", 1000001.0, "x"), "y"), ("OP_SUB", ("OP_MUL", 1000002.0, "x"), "z")]),
+    ("a shared subexpression", [("OP_ADD", ("OP_MUL", "x", "y"), 2.0), ("OP_SUB", ("OP_MUL", "x", "y"), "z")]),
+    ("small decimals", [("OP_ADD", ("OP_MUL", 0.1234567, "x"), ("OP_MUL", 0.1234568, "y")), ("OP_NEG", ("OP_DIV", "z", 3.0))]),
+]
+
+
+def h_expand_simplify_mx(eng):
+    """Model._expand_simplify_mx (the expand_vectors + expand_mx pass that rebuilds every equation from its SX expansion): each
+    rebuilt equation denotes the same real function of the variables as the equation it was built from -- whole function, with the
+    SX expansion as a structural copy of the equation (CasADi's own simplifications while expanding are CasADi's)."""
+    cas = M.install(eng, {})
+    label, system = EXPAND_SYSTEMS[eng.choice(len(EXPAND_SYSTEMS))]
+    eng.input("system", label)
+    S = {n: sym(n) for n in ("x", "y", "z")}
+
+    def build(t, leaf, node, number):
+        if isinstance(t, str):
+            return leaf(t)
+        if isinstance(t, float):
+            return number(t)
+        return node(t[0], [build(a, leaf, node, number) for a in t[1:]])
+    eqs = [build(t, lambda n: S[n], lambda k, a: E(k, *a), lambda v: const(z3.RealVal(repr(v)))) for t in system]
+    cas.attrs["veccat"] = stub(lambda eng, *a: E("veccat", *a))
+    cas.attrs["symvar"] = stub(lambda eng, e: VList([S[n] for n in ("x", "y", "z")]))
+    sx_syms = {}
+
+    class SXClass(Ext):
+        def sym_getattr(self, eng, name):
+            if name == "sym":
+                def mk(eng, nme, *shape):
+                    sx_syms[nme] = SXT("sym", name=nme)
+                    return sx_syms[nme]
+                return stub(mk)
+            raise Unsupported("SX.%s" % name)
+    cas.attrs["SX"] = SXClass()
+
+    class Fn(Ext):
+        def sym_getattr(self, eng, name):
+            if name == "expand":
+                return stub(lambda eng: self)
+            if name == "call":
+                def call(eng, actual, *a):
+                    by_name = {x.nm: x for x in eng.iterate(actual)}
+                    return VList([build(t, lambda n: by_name[n], lambda k, a_: SXT(k, a_), lambda v: SXT("const", value=v)) for t in system])
+                return stub(call)
+            raise Unsupported("Function.%s" % name)
+    fn_cls = VClass("Function")
+    fn_cls.constructor = lambda eng, c, a, k: Fn()
+    cas.attrs["Function"] = fn_cls
+    for nme, code in M.OPS.items():
+        cas.attrs.setdefault(nme, code)
+    names = {v: k for k, v in M.OPS.items()}
+    mx_cls = cas.attrs["MX"]
+    mx_cls.attrs["unary"] = stub(lambda eng, code, a: E(names[code], a))
+    mx_cls.attrs["binary"] = stub(lambda eng, code, a, b: E(names[code], a, b))
+    old_ctor = mx_cls.constructor
+    mx_cls.constructor = lambda eng, c, a, k: const(z3.RealVal(repr(a[0]))) if a and isinstance(a[0], float) else old_ctor(eng, c, a, k)
+    cas.attrs["DM"] = stub(lambda eng, x: x.value if isinstance(x, SXT) and x.kind == "const" else x)
+    model_cls = eng.module_global(eng.load_module(MODEL), "Model")
+    f = eng.find_function(MODEL, "Model._expand_simplify_mx")
+    out = eng.call(f, [VList(list(eqs))], {})
+    eng.cover("expandmx.done")
+    got = eng.iterate(out)
+    env = Env()
+    eng.prove("expandmx.one_equation_per_equation", z3.BoolVal(len(got) == len(eqs)))
+    for k_, (a, b) in enumerate(zip(eqs, got)):
+        eng.prove("expandmx.rebuilt_equation_denotes_the_original", (denote(b, env) if isinstance(b, E) else z3.BoolVal(False)) == denote(a, env)
+                  if isinstance(b, E) else z3.BoolVal(False), equation=k_, rebuilt=repr(b)[:160])
+
+
 HARNESSES = [("Model._simplify_once#eliminate_constant_assignments", h_constant_assignment),
              ("Model._simplify_once.extract_assignment", h_extract_assignment),
              ("Model._simplify_once.factor_and_simplify", h_factor_and_simplify),
              ("Model._simplify_once._detect_alias", h_detect_alias), ("Model._simplify_once._make_alias", h_make_alias),
              ("Model._simplify_once#reduce_affine_expression", h_reduce_affine),
-             ("Model._simplify_once#eliminable-variable loop with the real get_derivative", h_eliminable_derivatives)]
-EXPECTED_COVER = {"const.done", "extract.done", "factor.done", "detect.done", "make.done", "affine.done", "elimder.done", "elimder.raises"}
+             ("Model._simplify_once#eliminable-variable loop with the real get_derivative", h_eliminable_derivatives),
+             ("Model._expand_simplify_mx: rebuilt equations denote the originals", h_expand_simplify_mx)]
+EXPECTED_COVER = {"const.done", "extract.done", "factor.done", "detect.done", "make.done", "affine.done", "elimder.done", "elimder.raises", "expandmx.done"}
 BOUNDED = True
 LEVEL = "proof"
 TRUSTED = ["pyvc VC generator", "z3 5.1.0",
